@@ -58,7 +58,7 @@ def clause2(P, res):
             else:
                 res.violated(rid, key, f"wake-protocol fence at {f.loc} is {o}, not SeqCst: store->load ordering between publish and gate read is lost (invisible on x86 only for the store side)", where=f.loc)
         for e in b.calls():
-            if e.is_atomic and e.method in ("load", "compare_exchange", "compare_exchange_weak") and e.args:
+            if e.is_atomic and e.method in ("load", "compare_exchange", "compare_exchange_weak") and e.args and not e.is_telemetry and not (e.method == "load" and b.only_formatted(e)):
                 p = b.path_of_operand(e.args[0])
                 if not re.search(GATE_FIELD, p.rsplit(".", 1)[-1]) or "state" in p.rsplit(".", 1)[-1]:
                     continue
